@@ -17,7 +17,7 @@ pub fn meta() -> Meta {
     Meta {
         id: "C02",
         level: "exploration",
-        rule: "metamorphic relation on the real builder, enumerated completely per input family: F1 every record over {A,C,G,T,N} up to length 7 (k=5) with its reverse complement, every case mask (length<=6) and every line width; F2 the restart family L+N+R (k-mers on both sides of an N) against its reverse complement; F3 for all 30 k a repeat-free string of k+3 letters with N at every position: reverse complement, lower/alternating case, line widths 1,2,k,len-1, gzip (with and without .gz extension), CRLF line ends, header descriptions + blank lines + no final newline, an empty record in front, and the same records as FASTQ built with min-count 1 and no quality rule; F4 every ordered triple from a record pool with every subset reverse-complemented and every permutation; F5 every permutation of 3 and 4 samples through build_and_merge (columns permute with the names), and reversed/rotated orders of 72 samples through `ska build --threads 8` (recursive parallel merge). Non-trivial = the original input has at least one split k-mer and the transformed file differs from the original.".into(),
+        rule: "metamorphic relation on the real builder, enumerated completely per input family: F1 every record over {A,C,G,T,N} up to length 7 (k=5) with its reverse complement, every case mask (length<=6) and every line width; F2 the restart family L+N+R (k-mers on both sides of an N) against its reverse complement; F3 for all 30 k a repeat-free string of k+3 letters with N at every position: reverse complement, lower/alternating case, line widths 1,2,k,len-1, gzip (with and without .gz extension), CRLF line ends, header descriptions + blank lines + no final newline, an empty record in front, and the same records as FASTQ built with min-count 1 and no quality rule; F4 every ordered triple from a record pool with every subset reverse-complemented and every permutation; F5 every permutation of 3 and 4 samples through build_and_merge (columns permute with the names), and reversed/rotated orders of 72 samples through `ska build --threads 8` (recursive parallel merge); F6 paired FASTQ read sets under the read filter (min-count 2, each quality rule, one base of quality 19/20 at every position of one read, k in {5,33}): reverse-complementing any read with its qualities, reversing the read order, swapping the files, moving a read between the files. Non-trivial = the original input has at least one split k-mer and the transformed file differs from the original.".into(),
         assumptions: vec!["a file without split k-mers may be refused; refusal is treated as the empty dictionary on both sides".into()],
         exhaustive_when_uncapped: true,
     }
@@ -324,6 +324,81 @@ pub fn run(ctx: &Ctx, rep: &mut Report) {
         if !capped {
             rep.completed.push("F4 record triples".into());
         }
+    }
+
+    // F6 reads: the relations under the read filter (min-count 2, each quality rule, threshold 20): one base of
+    // quality 19 or 20 at every position of one read; reverse-complementing any read (qualities reversed with it),
+    // reversing the read order, swapping the two files, moving a read to the other file
+    if !capped {
+        for k in [5usize, 33] {
+            let g = repeat_free(k + 3, k, 0, ctx.seed + 77);
+            let reads0: Vec<Vec<u8>> = vec![g[..k + 2].to_vec(), g[..k + 1].to_vec(), g[1..].to_vec(), rc_str(&g[1..k + 2])];
+            for pos in 0..k + 2 {
+                for lowq in [19u8, 20] {
+                    idx += 1;
+                    if !ctx.mine(idx) {
+                        continue;
+                    }
+                    type Rd = (Vec<u8>, Vec<u8>);
+                    let mut reads: Vec<Rd> = reads0.iter().map(|r| (r.clone(), vec![30u8; r.len()])).collect();
+                    reads[0].1[pos] = lowq;
+                    let fq = |v: &[Rd]| -> Vec<u8> {
+                        let mut out = Vec::new();
+                        for (i, (s, q)) in v.iter().enumerate() {
+                            out.extend_from_slice(format!("@r{i}\n").as_bytes());
+                            out.extend_from_slice(s);
+                            out.extend_from_slice(b"\n+\n");
+                            out.extend(q.iter().map(|x| x + 33));
+                            out.push(b'\n');
+                        }
+                        if v.is_empty() {
+                            out.extend_from_slice(b"@empty\nA\n+\nI\n");
+                        }
+                        out
+                    };
+                    let rcr = |r: &Rd| -> Rd { (rc_str(&r.0), r.1.iter().rev().copied().collect()) };
+                    for rule in [QRule::Middle, QRule::Strict, QRule::None] {
+                        for rc in [true, false] {
+                            let build = |f1: &[Rd], f2: &[Rd]| -> BTreeMap<String, u8> {
+                                let p1 = scratch::write("c02_r1.fastq", &fq(f1));
+                                let p2 = scratch::write("c02_r2.fastq", &fq(f2));
+                                dict_or_empty(if k <= 31 { real::build_dict_reads::<u64>(&p1, &p2, k, rc, 2, 20, rule) } else { real::build_dict_reads::<u128>(&p1, &p2, k, rc, 2, 20, rule) })
+                            };
+                            let (f1, f2) = (reads[..2].to_vec(), reads[2..].to_vec());
+                            let orig = build(&f1, &f2);
+                            let mut variants: Vec<(String, Vec<Rd>, Vec<Rd>)> = Vec::new();
+                            if rc {
+                                for i in 0..4 {
+                                    let mut all = reads.clone();
+                                    all[i] = rcr(&all[i]);
+                                    variants.push((format!("reverse-complement read {i}"), all[..2].to_vec(), all[2..].to_vec()));
+                                }
+                            }
+                            variants.push(("reverse the read order in both files".into(), f1.iter().rev().cloned().collect(), f2.iter().rev().cloned().collect()));
+                            variants.push(("swap the two files".into(), f2.clone(), f1.clone()));
+                            variants.push(("move the first read to the second file".into(), f1[1..].to_vec(), [f2.clone(), f1[..1].to_vec()].concat()));
+                            variants.push(("all reads in the first file, low-quality read last".into(), [f1[1..].to_vec(), f2.clone(), f1[..1].to_vec()].concat(), vec![]));
+                            for (what, a, b) in variants {
+                                rep.evaluations += 1;
+                                if !orig.is_empty() {
+                                    rep.nontrivial += 1;
+                                }
+                                let got = build(&a, &b);
+                                if got != orig {
+                                    rep.violate(
+                                        format!("F6 k={k} rc={rc} pos={pos} q={lowq} {rule:?} {what}"),
+                                        format!("reads, min-count 2, {rule:?} rule, quality {lowq} at position {pos} of read 0: {what}: dictionary changes from {} to {}", show(&orig), show(&got)),
+                                        json!({"family": "F6", "k": k, "rc": rc, "pos": pos, "lowq": lowq, "rule": format!("{rule:?}"), "transform": what}),
+                                    );
+                                }
+                            }
+                            rep.corner("read_sets_under_the_quality_filter");
+                        }
+                    }
+                }
+            }
+        }
+        rep.completed.push("F6 reads".into());
     }
 
     // F5 sample permutations
